@@ -28,19 +28,19 @@ CONF = {
     "C02": dict(level="exploration", workers=16, quick=dict(cases=4000, size=60), thorough=dict(cases=60000, size=100)),
     "C03": dict(also=dict(quick=[("C18Q", 600), ("C04", 800)], thorough=[("C18Q", 10000), ("C04", 12000)]), level="exploration", workers=16, quick=dict(cases=4000, size=60), thorough=dict(cases=75000, size=100)),
     "C04": dict(level="exploration", workers=16, quick=dict(cases=4000, size=80), thorough=dict(cases=60000, size=100)),
-    "C05": dict(level="exploration", workers=16, quick=dict(cases=500, size=60), thorough=dict(cases=48000, size=100)),
-    "C06": dict(level="exploration", workers=16, quick=dict(cases=1500, size=70), thorough=dict(cases=60000, size=100)),
-    "C07": dict(level="exploration", workers=16, quick=dict(cases=3000, size=80), thorough=dict(cases=80000, size=100)),
-    "C08": dict(level="exploration", workers=16, quick=dict(cases=1500, size=70), thorough=dict(cases=60000, size=100)),
-    "C09": dict(level="exploration", workers=16, quick=dict(cases=800, size=60), thorough=dict(cases=20000, size=100)),
+    "C05": dict(level="exploration", workers=16, quick=dict(cases=3000, size=60), thorough=dict(cases=48000, size=100)),
+    "C06": dict(level="exploration", workers=16, quick=dict(cases=4000, size=70), thorough=dict(cases=60000, size=100)),
+    "C07": dict(level="exploration", workers=16, quick=dict(cases=5000, size=80), thorough=dict(cases=80000, size=100)),
+    "C08": dict(level="exploration", workers=16, quick=dict(cases=4000, size=70), thorough=dict(cases=60000, size=100)),
+    "C09": dict(level="exploration", workers=16, quick=dict(cases=2500, size=60), thorough=dict(cases=20000, size=100)),
     "C11U": dict(level="exploration", workers=16, quick=dict(cases=1500, size=60), thorough=dict(cases=20000, size=100)),
     "C11": dict(also=dict(quick=[("C16", 300), ("C11U", 1500)], thorough=[("C16", 3000), ("C11U", 20000)]), level="exploration", workers=16, quick=dict(cases=400, size=60), thorough=dict(cases=6000, size=100),
                 fuzz=[dict(name="fz_session", quick_runs=1200, thorough_runs=60000, max_len=256, jobs=6)]),
-    "C12": dict(also=dict(quick=[("C04", 1500)], thorough=[("C04", 20000)]), level="exploration", workers=16, quick=dict(cases=1200, size=70), thorough=dict(cases=48000, size=100)),
+    "C12": dict(also=dict(quick=[("C04", 1500)], thorough=[("C04", 20000)]), level="exploration", workers=16, quick=dict(cases=2500, size=70), thorough=dict(cases=48000, size=100)),
     "C10": dict(also=dict(quick=[("C02", 1200)], thorough=[("C02", 20000)]), level="exploration", workers=16, quick=dict(cases=2500, size=60), thorough=dict(cases=45000, size=100)),
     "C14": dict(level="exploration", workers=16, quick=dict(cases=700, size=60), thorough=dict(cases=32000, size=100)),
     "C13": dict(also=dict(quick=[("C08", 600), ("C07", 1200)], thorough=[("C08", 20000), ("C07", 30000)]), level="exploration", workers=16, quick=dict(cases=2000, size=60), thorough=dict(cases=48000, size=100)),
-    "C15": dict(level="exploration", workers=16, quick=dict(cases=3000, size=80), thorough=dict(cases=90000, size=100)),
+    "C15": dict(level="exploration", workers=16, quick=dict(cases=6000, size=80), thorough=dict(cases=90000, size=100)),
     "C16P": dict(level="exploration", workers=16, quick=dict(cases=4000, size=60), thorough=dict(cases=150000, size=100),
                  fuzz=[dict(name="fz_chunk", quick_runs=150000, thorough_runs=5000000, max_len=400)]),
     "C16S": dict(level="exploration", workers=16, quick=dict(cases=500, size=50), thorough=dict(cases=15000, size=100)),
